@@ -735,7 +735,7 @@ def check_c08(ctx, R):
           "the queue is moved to the top definition — removed from its current parent and added to the top on every path, with the name "
           "`<parent path>/<name>`; F3 a non-leaf instance queues all its children, moves all its cables from a snapshot of the cable list, "
           "redoes the connections of every port, and is recorded for removal; every recorded shell is removed from the top at the end; "
-          "F4 the connection merge disconnects both sides of the port pin before moving pins, moves a snapshot of the inner net's pins, and "
+          "F4 the connection merge disconnects both sides of the port pin before moving pins (each side on every path where its net exists), moves a snapshot of the inner net's pins, and "
           "pairs each disconnect with a connect to the outer net; F5 generated identifiers come from a counter that advances once per call.",
           ["flatten's helper functions are identified by what they do, not by name"])
 def check_c09(ctx, R):
